@@ -121,6 +121,7 @@ def do_yield(ip, y, st):
                 from .calls import eval_spec
                 ip.emit("abandon", "abandon#%d@yield" % k, s2, eval_spec(ip, s2, env, cl, old=ip.entry))
             outs.append(("next", s2, None))
+            outs += abandon_here(ip, s2)
             continue
         t = ip.deref(s2, out)
         from .builtins_ import elem_term
@@ -132,7 +133,17 @@ def do_yield(ip, y, st):
             from .calls import eval_spec
             ip.emit("abandon", "abandon#%d@yield" % k, s2, eval_spec(ip, s2, env, cl, old=ip.entry))
         outs.append(("next", s2, None))
+        outs += abandon_here(ip, s2)
     return outs
+
+
+def abandon_here(ip, st):
+    """the consumer stops at this yield (stops iterating, or raises downstream): GeneratorExit is raised at the yield and
+    travels through the enclosing try/finally blocks; explored when the contract states `on_abandon` clauses"""
+    if not getattr(ip.c, "on_abandon", None) or st.depth:
+        return []
+    a = st.fork(None, "abandon.")
+    return [("raise", a, ExcV("GeneratorExit"))]
 
 
 def st_Assign(ip, s, st):
@@ -396,7 +407,19 @@ def handler_classes(ip, h, st):
 
 def st_Try(ip, s, st):
     if s.finalbody:
-        raise U("try/finally")
+        # try/finally: the final block runs on every way out of the protected part (normal, return, break, continue,
+        # exception -- and GeneratorExit at a yield when a generator is abandoned)
+        inner = ast.Try(body=s.body, handlers=s.handlers, orelse=s.orelse, finalbody=[])
+        ast.copy_location(inner, s)
+        results = st_Try(ip, inner, st) if (s.handlers or s.orelse) else exec_block(ip, s.body, st)
+        outs = []
+        for kind, s2, payload in results:
+            for k2, s3, p2 in exec_block(ip, s.finalbody, s2):
+                if k2 == "next":
+                    outs.append((kind, s3, payload))
+                else:
+                    outs.append((k2, s3, p2))       # the final block itself returns / raises: that wins
+        return outs
     hcls = [handler_classes(ip, h, st) for h in s.handlers]
     flat = tuple(c for cl in hcls for c in cl if not c.startswith("?"))
     saved = st.catching
@@ -908,6 +931,11 @@ def for_iterator(ip, s, st, it, k, spec, is_list=False):
     n_exc = len(ip._exc_out)
     saved_catch = h.catching
     h.catching = saved_catch + ("StopIteration",)
+    if ip.c is not None and getattr(ip.c, "upstream_raises", False) and getattr(h.heap[it.cid], "name", None):
+        # the producer of the input flow (an upstream element) raises while the next value is pulled
+        up = h.fork(None, "upraise.")
+        up.catching = saved_catch
+        ip._exc_out.append((up, ExcV("UpstreamError")))
     results = iter_next(ip, h, it)
     # exhaustion -> loop exit
     new_exc = ip._exc_out[n_exc:]
